@@ -30,6 +30,7 @@ RULE = ('random sequential/time-travel programs + examples/*.hid; each compiled 
         'probability 0.3); non-trivial = the program has >= 2 functions, >= 1 string constant and >= 1 global (the tables '
         'whose order could vary); distinct by hash of source')
 ASSUMPTIONS = common.ISA_ASSUMPTIONS[:3] + ['"any process" is sampled by 6 hash seeds per run']
+REQUIRED_HIDC_FUNCTIONS = ['codegen/generator:CodeGen.gen_lines', 'codegen/generator:CodeGen.add_label']     # M-COV: deciding code never entered => inconclusive
 MIN_NONTRIVIAL = {'quick': 60, 'thorough': 600}
 MAX_STEPS = 400_000
 LADDER = [16, 24, 36, 54, 80, 120, 180, 270, 400, 600, 900, 1400, 2000, 4000]
